@@ -518,6 +518,26 @@ fn run_case(c: &Value) -> (String, usize, Value) {
                     }
                     b
                 }
+                "longname" => {
+                    // a property name of 60..70 bytes with a multi-byte character at a chosen position, then the end of the input
+                    // or an end marker / a value: error paths that quote the name must not cut it inside a character
+                    let pos = c["pos"].as_u64().unwrap_or(63) as usize;
+                    let total = c["len"].as_u64().unwrap_or(66) as usize;
+                    let mut name: Vec<u8> = vec![b'n'; pos];
+                    name.extend_from_slice("\u{e9}".as_bytes());
+                    while name.len() < total { name.push(b'm'); }
+                    let mut b = vec![if c["kind"] == "ecma" { 8u8 } else { 3u8 }];
+                    if c["kind"] == "ecma" { b.extend_from_slice(&[0, 0, 0, 1]); }
+                    b.extend_from_slice(&(name.len() as u16).to_be_bytes());
+                    b.extend_from_slice(&name);
+                    match c["after"].as_str().unwrap_or("eof") {
+                        "eof" => {}
+                        "end" => b.push(9),
+                        "badmarker" => b.push(0x0D),
+                        _ => b.extend_from_slice(&[5, 0, 0, 9]),
+                    }
+                    b
+                }
                 "keys" => {
                     // property names that read like array indexes or sizes: nothing in the input may size an allocation
                     let key = c["key"].as_str().unwrap_or("0").as_bytes().to_vec();
@@ -550,6 +570,34 @@ fn run_case(c: &Value) -> (String, usize, Value) {
             let n = bytes.len();
             (decode_on_small_stack(bytes), n)
         }
+        "amfseq" => guard(&mut || {
+            // same thread: first a message with one long string (and a long property name), then one with many short strings;
+            // only the second decode is measured
+            let big = c["big"].as_u64().unwrap_or(65535) as usize;
+            let n = c["n"].as_u64().unwrap_or(2000) as usize;
+            extra = json!({"class": format!("amfseq:{}", big)});
+            let mut first: Vec<u8> = Vec::new();
+            if big <= 65535 {
+                first.extend_from_slice(&[2, (big >> 8) as u8, big as u8]);
+            } else {
+                first.push(12);
+                first.extend_from_slice(&(big as u32).to_be_bytes());
+            }
+            first.extend(vec![b'x'; big]);
+            first.extend_from_slice(&[3, 0xFF, 0xFF]);
+            first.extend(vec![b'n'; 65535]);
+            first.extend_from_slice(&[5, 0, 0, 9]);
+            let mut second: Vec<u8> = Vec::new();
+            for i in 0..n {
+                second.extend_from_slice(&[2, 0, 3, b'a', b'b', (i % 26) as u8 + b'a']);
+            }
+            let _ = rml_amf0::deserialize(&mut std::io::Cursor::new(&first[..]));
+            let _ = rml_amf0::deserialize(&mut std::io::Cursor::new(&second[..]));
+            drop(first); // (the harness' own buffer must not count)
+            PEAK.store(CUR.load(Ordering::Relaxed), Ordering::Relaxed);
+            let r = rml_amf0::deserialize(&mut std::io::Cursor::new(&second[..]));
+            (ok_err(r.as_ref().map(|_| ()).map_err(|_| ())).to_string(), second.len())
+        }),
         "deser" => guard(&mut || {
             let (stream, class) = hostile_stream(c["class"].as_u64().unwrap_or(0) as usize, &mut rng);
             extra = json!({"class": class});
@@ -984,6 +1032,21 @@ pub fn cases(kind: &str, tier: &str, seed: u64) -> Vec<Value> {
                         v.push(json!({"t":"amf","shape":"keys","kind":kind,"key":key,"n":n}));
                     }
                 }
+            }
+            for kind in ["ecma", "object"].iter() {
+                for pos in 58u64..70 {
+                    for after in ["eof", "end", "badmarker", "value"].iter() {
+                        v.push(json!({"t":"amf","shape":"longname","kind":kind,"pos":pos,"len":pos + 2 + (pos % 3),"after":after}));
+                    }
+                }
+                for &pos in [126u64, 127, 128, 254, 255, 256, 1022, 1023, 1024].iter() {
+                    v.push(json!({"t":"amf","shape":"longname","kind":kind,"pos":pos,"len":pos + 3,"after":"eof"}));
+                    v.push(json!({"t":"amf","shape":"longname","kind":kind,"pos":pos,"len":pos + 3,"after":"end"}));
+                }
+            }
+            // what one decode leaves behind must not make the NEXT decode on the same thread expensive
+            for &big in [65535u64, 1 << 20, 4 << 20].iter() {
+                v.push(json!({"t":"amfseq","big":big,"n":2000}));
             }
             for m in 0..256u64 {
                 for &c in [0x04000000u64, 0xFFFFFFFF, 0x00010000].iter() {
